@@ -242,3 +242,820 @@ def flw4(ctx):
                          "the syllable-boundary deletion arm also edits segments (%s): a boundary-only rule can add or drop a segment" % bad)
     r.analysed = {"interpreter_stress_tone_sites": n_sites}
     return r
+
+
+# ====================================================================== FLW-5
+
+SEGS_T = "alloc::collections::vec_deque::VecDeque<asca::seg::Segment>"
+E, N, M = "Empty", "NonEmpty", "Maybe"
+GROW = ("push_back", "push_front", "insert")
+SHRINK = ("pop_back", "pop_front", "remove", "truncate", "drain", "split_off", "retain", "swap_remove_back", "swap_remove_front")
+
+
+def _join(a, b):
+    if a is None:
+        return b
+    if b is None:
+        return a
+    return a if a == b else M
+
+
+def _is_tracked_ty(t):
+    return (t == SYL or t == SEGS_T or (("asca::syll::Syllable" in t) and not t.startswith("&") and "Vec<asca::syll::Syllable>" not in t
+                                         and "[asca::syll::Syllable]" not in t and "VarKind" not in t and "HashMap" not in t))
+
+
+class SyllState:
+    """Forward may/must-emptiness analysis of by-value Syllable (and detached VecDeque<Segment>) locals of one body."""
+
+    def __init__(self, body):
+        self.b = body
+        self.cfg = body.cfg
+        self.tracked = {i for i, l in enumerate(body.locals) if _is_tracked_ty(l["ty"])}
+        self.sinks = []       # (kind, block, loc, local, state, via)
+        self.in_state = {}
+        self.run()
+
+    # -- reference resolution: which tracked local does a reference local point into?
+    def ref_target(self, l, depth=0):
+        """-> (tracked local, 'syl'|'segs') or None (in-word / unknown)"""
+        if depth > 8:
+            return None
+        d = _single_def(self.b, l)
+        if d is None:
+            return None
+        if d.get("k") == "ref":
+            pl = d["pl"]
+            if pl["l"] in self.tracked and "*" not in pl["p"]:
+                segs = any(isinstance(p, dict) and p.get("n") == "segments" and p.get("of") == SYL for p in pl["p"])
+                if self.b.local_ty(pl["l"]) == SEGS_T:
+                    segs = True
+                return (pl["l"], "segs" if segs else "syl")
+            if pl["p"] and pl["p"][0] == "*":
+                t = self.ref_target(pl["l"], depth + 1)
+                if t is not None:
+                    segs = t[1] == "segs" or any(isinstance(p, dict) and p.get("n") == "segments" and p.get("of") == SYL for p in pl["p"])
+                    return (t[0], "segs" if segs else "syl")
+            return None
+        if d.get("k") == "use" and d["op"].get("k") in ("copy", "move") and not d["op"]["pl"]["p"]:
+            return self.ref_target(d["op"]["pl"]["l"], depth + 1)
+        if d.get("k") == "call":
+            cp = callee_path(d["t"]) or ""
+            if cp.endswith(("Deref>::deref", "DerefMut>::deref_mut")) and d["t"]["args"] and d["t"]["args"][0].get("k") in ("copy", "move"):
+                return self.ref_target(d["t"]["args"][0]["pl"]["l"], depth + 1)
+        return None
+
+    def op_local(self, op):
+        if op.get("k") in ("copy", "move"):
+            return op["pl"]["l"], op["pl"]["p"]
+        return None, None
+
+    def transfer_stmt(self, st, s, bi):
+        if s["k"] != "assign":
+            return
+        lhs, rv = s["lhs"], s["rv"]
+        dst = lhs["l"]
+        # whole-value stores through a pointer = sinks
+        if lhs["p"] and lhs["p"][0] == "*" and rv["k"] == "use":
+            src, sp = self.op_local(rv["op"])
+            if src in self.tracked:
+                lty = self._place_ty_tail(lhs)
+                if lty == "syllable" and self.ref_target(lhs["l"]) is None:
+                    self.sinks.append(("store-syllable", bi, short_loc(s["loc"]), src, st.get(src), None))
+                elif lty == "segments" and self.ref_target(lhs["l"]) is None:
+                    self.sinks.append(("store-segments", bi, short_loc(s["loc"]), src, st.get(src), None))
+                elif self.ref_target(lhs["l"]) is not None:
+                    tgt = self.ref_target(lhs["l"])[0]
+                    st[tgt] = st.get(src)
+            return
+        if dst not in self.tracked:
+            return
+        if lhs["p"]:
+            # field store into a tracked local: x.segments = d
+            if any(isinstance(p, dict) and p.get("n") == "segments" for p in lhs["p"]) and rv["k"] == "use":
+                src, sp = self.op_local(rv["op"])
+                if src in self.tracked:
+                    st[dst] = st.get(src)
+            return
+        if rv["k"] == "use":
+            src, sp = self.op_local(rv["op"])
+            if src in self.tracked:
+                st[dst] = st.get(src)
+            elif src is not None and sp and sp[0] == "*":
+                # copy out of something behind a pointer (an existing syllable / its segments)
+                t = self.ref_target(src)
+                st[dst] = st.get(t[0]) if t else N
+        elif rv["k"] == "agg":
+            if rv.get("adt") == SYL:
+                segs_op = rv["ops"][rv["fields"].index("segments")] if "segments" in rv.get("fields", []) else None
+                src, _ = self.op_local(segs_op) if segs_op else (None, None)
+                st[dst] = st.get(src) if src in self.tracked else M
+            else:
+                # wrappers (Option/Result/tuples) of a tracked value
+                vals = [st.get(self.op_local(o)[0]) for o in rv["ops"] if self.op_local(o)[0] in self.tracked]
+                if vals:
+                    st[dst] = vals[0]
+
+    def _place_ty_tail(self, place):
+        last = place["p"][-1]
+        if place["p"] == ["*"]:
+            t = self.b.local_ty(place["l"])
+            return "syllable" if t.endswith("asca::syll::Syllable") else None
+        if isinstance(last, dict) and last.get("of") == SYL and last.get("n") == "segments":
+            return "segments"
+        return None
+
+    def transfer_term(self, st, t, bi):
+        """returns {succ: state} (edge-sensitive for is_empty branches handled separately)"""
+        if t["k"] != "call":
+            return
+        cp = callee_path(t) or ""
+        inst = t["callee"].get("inst") or ""
+        dst = t["dest"]["l"] if not t["dest"]["p"] else None
+        args = t["args"]
+        if cp == "asca::syll::Syllable::new" or (cp == "alloc::collections::vec_deque::VecDeque::new" and dst in self.tracked):
+            st[dst] = E
+            return
+        if cp.endswith("as core::clone::Clone>::clone") and dst in self.tracked:
+            a, _ = self.op_local(args[0])
+            tgt = self.ref_target(a) if a is not None else None
+            st[dst] = st.get(tgt[0]) if tgt else N      # clone of an existing (in-word / captured) syllable
+            return
+        if cp.endswith("SubRule::gen_syll_from_struct") and dst is not None:
+            st[dst] = M
+            return
+        if (cp.endswith("Try>::branch") or cp.endswith("Option::unwrap") or cp.endswith("Result::unwrap") or cp.endswith("Option::expect")) and dst in self.tracked:
+            a, _ = self.op_local(args[0])
+            if a in self.tracked:
+                st[dst] = st.get(a)
+            return
+        if cp.startswith(DEQUE) and "VecDeque::<asca::seg::Segment>" in inst:
+            meth = cp[len(DEQUE):]
+            a, _ = self.op_local(args[0]) if args else (None, None)
+            tgt = self.ref_target(a) if a is not None else None
+            if tgt:
+                x = tgt[0]
+                if meth in GROW:
+                    st[x] = N
+                elif meth == "append":
+                    st[x] = N if st.get(x) == N else M
+                elif meth == "clear":
+                    st[x] = E
+                elif meth in SHRINK:
+                    st[x] = E if st.get(x) == E else M
+            return
+        if cp in ("alloc::vec::Vec::insert", "alloc::vec::Vec::push") and "Vec::<asca::syll::Syllable>" in inst:
+            a, _ = self.op_local(args[-1])
+            if a in self.tracked:
+                self.sinks.append((cp.rsplit("::", 1)[-1], bi, short_loc(t["loc"]), a, st.get(a), t))
+            else:
+                self.sinks.append((cp.rsplit("::", 1)[-1], bi, short_loc(t["loc"]), a, None, t))
+            return
+        # a tracked value passed by &mut to an unknown local function may be changed
+        if dst in self.tracked:
+            st[dst] = M
+
+    def run(self):
+        b, cfg = self.b, self.cfg
+        # branch refinements: is_empty() on a tracked local's segments
+        refine = {}     # switch block -> (local, succ_if_empty, succ_if_nonempty)
+        for i, t in b.calls():
+            cp = callee_path(t) or ""
+            if cp == DEQUE + "is_empty" and t["args"]:
+                a, _ = self.op_local(t["args"][0])
+                tgt = self.ref_target(a) if a is not None else None
+                if tgt and not t["dest"]["p"]:
+                    vals = track_value(b, t["dest"]["l"])
+                    bools, _ = guard_switches(b, vals)
+                    for sb, t_succ, f_succ in bools:
+                        refine[sb] = (tgt[0], t_succ, f_succ)
+        self.refine = refine
+        instate = {0: {}}
+        work = [0]
+        sink_seen = set()
+        iters = 0
+        while work and iters < 20000:
+            iters += 1
+            bi = work.pop()
+            st = dict(instate.get(bi, {}))
+            blk = b.blocks[bi]
+            self.sinks_backup = len(self.sinks)
+            for s in blk["s"]:
+                self.transfer_stmt(st, s, bi)
+            self.transfer_term(st, blk["t"], bi)
+            for su in cfg.succ[bi]:
+                out = dict(st)
+                if bi in refine:
+                    x, t_succ, f_succ = refine[bi]
+                    if su == t_succ and su != f_succ:
+                        out[x] = E
+                    elif su == f_succ and su != t_succ:
+                        out[x] = N
+                old = instate.get(su)
+                if old is None:
+                    instate[su] = out
+                    work.append(su)
+                else:
+                    new = dict(old)
+                    ch = False
+                    for k in set(old) | set(out):
+                        j = _join(old.get(k), out.get(k)) if (k in old and k in out) else (old.get(k) if k in old else out.get(k))
+                        # a value defined on one path only: keep it (uninitialised on the other path means not used there)
+                        if new.get(k) != j:
+                            new[k] = j
+                            ch = True
+                    if ch:
+                        instate[su] = new
+                        work.append(su)
+        # final pass: recompute sinks with the fixed-point states
+        self.sinks = []
+        for bi in sorted(instate):
+            st = dict(instate[bi])
+            blk = b.blocks[bi]
+            for s in blk["s"]:
+                self.transfer_stmt(st, s, bi)
+            self.transfer_term(st, blk["t"], bi)
+        self.in_state = instate
+
+
+def origin_name(body, l, depth=0):
+    """user-visible name of the variable a temporary was moved from"""
+    nm = body.local_name(l)
+    if nm or depth > 6:
+        return nm
+    d = _single_def(body, l)
+    if d is not None and d.get("k") == "use" and d["op"].get("k") in ("copy", "move"):
+        return origin_name(body, d["op"]["pl"]["l"], depth + 1)
+    if d is not None and d.get("k") == "call":
+        cp = callee_path(d["t"]) or ""
+        if d["t"]["args"] and d["t"]["args"][0].get("k") in ("copy", "move"):
+            inner = origin_name(body, d["t"]["args"][0]["pl"]["l"], depth + 1)
+            if inner:
+                return inner
+        return cp.rsplit("::", 1)[-1] + "()"
+    if d is not None and d.get("k") == "agg":
+        return "literal"
+    return None
+
+
+def _fixup_follows(body, sink_blk, kind):
+    """`syllables.push(<empty literal>); syllables.last_mut().unwrap().segments.push_front(seg)` — the very next
+    segment-deque edit on the straight-line continuation fills the syllable just stored."""
+    cfg = body.cfg
+    want = "last_mut" if kind == "push" else "first_mut"
+    cur = sink_blk
+    seen = 0
+    saw_accessor = False
+    while seen < 14:
+        seen += 1
+        nxt = [s for s in cfg.succ[cur]]
+        if len(nxt) != 1:
+            return False
+        cur = nxt[0]
+        t = body.blocks[cur]["t"]
+        if t["k"] == "call":
+            cp = callee_path(t) or ""
+            if cp.endswith("<impl [T]>::" + want):
+                saw_accessor = True
+            if cp.startswith(DEQUE):
+                return saw_accessor and cp[len(DEQUE):] in ("push_front", "push_back")
+            if cp.startswith("asca::"):
+                return False
+    return False
+
+
+def flw5(ctx):
+    r = RuleResult("FLW-5", "no possibly-empty syllable is stored into a word; every removal of a segment from a syllable in a word is followed by an emptiness check (or keeps a copy)", floor=63)
+    lib = ctx.lib
+    interp = [b for b in lib.bodies if not b.in_test_mod() and b.kind != "closure" and b.path.startswith(("asca::subrule::", "asca::syll::", "asca::rule::"))]
+    word_fns = [b for b in lib.bodies if not b.in_test_mod() and b.kind != "closure" and b.path.startswith("asca::word::")]
+    n_sinks = n_rem = 0
+    # ---------------- 5a
+    for b in interp + word_fns:
+        has = any((callee_path(t) or "") in ("alloc::vec::Vec::insert", "alloc::vec::Vec::push") and "Vec::<asca::syll::Syllable>" in (t["callee"].get("inst") or "")
+                  for _, t in b.calls()) or any(SYL in l["ty"] and not l["ty"].startswith("&") for l in b.locals[b.mir["arg_count"] + 1:])
+        if not has:
+            continue
+        an = SyllState(b)
+        per = {}
+        for kind, bi, loc, l, state, t in an.sinks:
+            n_sinks += 1
+            nm = origin_name(b, l) if l is not None else None
+            k = (kind, nm)
+            ordinal = per.get(k, 0)
+            per[k] = ordinal + 1
+            what = "%s: %s of `%s` into the word" % (b.path.rsplit("::", 1)[-1], kind, nm)
+            if state == N:
+                r.inst(what + " — NonEmpty on every path", loc, "ok")
+                continue
+            if state in (E, M) and kind in ("push", "insert") and _fixup_follows(b, bi, kind):
+                r.inst(what + " — empty literal filled by the next statement (composite write)", loc, "accepted:push-then-fill idiom")
+                continue
+            if state in (E, M) and _sink_infeasible(b, an, bi):
+                r.inst(what + " — inside `if X.segments.is_empty()` where X is the first half of a split guarded by !at_syll_start (never empty)", loc,
+                       "accepted:infeasible branch")
+                continue
+            exc = UNWITNESSED_5A.get((b.path, kind, nm, ordinal))
+            if state in (E, M) and exc:
+                r.inst(what + " — state %s, no input reaches it with an empty syllable" % state, loc, "accepted:exception")
+                e_ = {"site": "%s|%s|%s|#%d" % (b.path, kind, nm, ordinal), "reason": exc}
+                if e_ not in r.exceptions:
+                    r.exceptions.append(e_)
+                continue
+            if state is None and b.path.startswith("asca::word::") and kind == "push":
+                # Word::setup pushes `sy` / `sy.clone()` guarded by explicit emptiness tests on the syllable being built
+                pass
+            r.inst(what + " — state %s" % state, loc, "report")
+            r.report("FLW-5a|%s|%s|%s|#%d" % (b.path, kind, nm, ordinal), loc, b.path,
+                     "a syllable that may be empty (%s) is stored into the word here (%s of `%s`) without an emptiness test" % (state, kind, nm),
+                     state=state)
+    # ---------------- 5b
+    for b in interp:
+        an = SyllState(b)
+        cfg = b.cfg
+        rems = []
+        for i, t in b.calls():
+            cp = callee_path(t) or ""
+            if cp.startswith(DEQUE) and cp[len(DEQUE):] in SHRINK + ("clear",) and "VecDeque::<asca::seg::Segment>" in (t["callee"].get("inst") or ""):
+                a, _ = an.op_local(t["args"][0])
+                if a is not None and an.ref_target(a) is None:
+                    rems.append((cp[len(DEQUE):], i, t, a))
+        if not rems:
+            continue
+        err_exits = {i for i, t in b.calls() if (callee_path(t) or "").endswith("FromResidual<core::result::Result<core::convert::Infallible, E>>>::from_residual")}
+        # emptiness checks on in-word syllables that lead to a syllable removal / overwrite
+        checks = set()
+        for i, t in b.calls():
+            cp = callee_path(t) or ""
+            if cp == DEQUE + "is_empty" and t["args"]:
+                a, _ = an.op_local(t["args"][0])
+                if a is None or an.ref_target(a) is not None:
+                    continue
+                if _root_is_param_word(b, a):
+                    continue          # emptiness of the *input* word says nothing about the word being rewritten
+                vals = track_value(b, t["dest"]["l"])
+                bools, _ = guard_switches(b, vals)
+                for sb, t_succ, f_succ in bools:
+                    region = {x for x in cfg.reach if cfg.dominates(t_succ, x)} if t_succ != f_succ else set()
+                    fixes = False
+                    for x in region:
+                        tt = b.blocks[x]["t"]
+                        if tt["k"] == "call":
+                            c2 = callee_path(tt) or ""
+                            if (c2 in ("alloc::vec::Vec::remove", "alloc::vec::Vec::pop") and "Vec::<asca::syll::Syllable>" in (tt["callee"].get("inst") or "")) or c2.endswith("Word::remove_syll"):
+                                fixes = True
+                        for s in b.blocks[x]["s"]:
+                            if s["k"] == "assign" and s["lhs"]["p"] == ["*"] and b.local_ty(s["lhs"]["l"]).endswith("asca::syll::Syllable"):
+                                fixes = True
+                    if fixes:
+                        checks.add(i)
+        per = {}
+        for meth, bi, t, a in rems:
+            n_rem += 1
+            loc = short_loc(t["loc"])
+            ordinal = per.get(meth, 0)
+            per[meth] = ordinal + 1
+            fn = b.path.rsplit("::", 1)[-1]
+            # (b) keeps a copy: inside a loop guarded by `run_length > c`, c >= 1
+            if _guarded_by_runlength(b, bi):
+                r.inst("%s: segments.%s keeps at least one copy of the run (guard `len > c`, c >= 1)" % (fn, meth), loc, "accepted:run-length guard")
+                continue
+            # (c) split idiom under a `!at_syll_start()` guard
+            if _guarded_not_at_syll_start(b, bi) and meth == "pop_back" and _in_len_gt_loop(b, bi):
+                r.inst("%s: split `while a.len() > pos.seg_index { b.push_front(a.pop_back()) }` with seg_index > 0" % fn, loc, "accepted:split keeps the first half non-empty")
+                continue
+            # (a) emptiness check on every normal path afterwards
+            ok = bool(checks) and cfg.must_pass_through(bi, set(checks) | err_exits, cfg.exits) and bi not in checks
+            if not ok and bool(checks) and _in_len_gt_loop(b, bi):
+                # split loop: the check comes after the loop
+                ok = cfg.must_pass_through(bi, set(checks) | err_exits, cfg.exits)
+            r.inst("%s: segments.%s on a syllable in the word is followed on every path by an emptiness check that removes/overwrites the syllable" % (fn, meth),
+                   loc, "ok" if ok else "report")
+            if not ok:
+                r.report("FLW-5b|%s|%s|#%d" % (b.path, meth, ordinal), loc, b.path,
+                         "a segment is removed from a syllable inside the word (%s) and no emptiness check of the rewritten word follows on every path: an empty syllable can remain" % meth)
+    r.analysed = {"syllable_sinks": n_sinks, "in_word_removals": n_rem}
+    return r
+
+
+# flagged by the path-insensitive typestate, but no input could be exhibited (value-level fact about the cursor): one named site each
+UNWITNESSED_5A = {
+    ("asca::subrule::SubRule::insert", "insert", "after_syll", 0):
+        "a syllable variable can only be bound by a before-context; the insertion cursor after a before-context is a syllable start or lies "
+        "inside the syllable, so the second half of the split is never empty (no witness found; `* > 1 / %=1 a_#` etc. give well-formed words)",
+}
+
+
+def _root_ref(b, l, depth=0):
+    """the `&mut Syllable` local a reference chain starts from (result of get_mut / index_mut / unwrap ...)"""
+    if depth > 10:
+        return None
+    d = _single_def(b, l)
+    if d is None:
+        return l
+    if d.get("k") == "ref":
+        return _root_ref(b, d["pl"]["l"], depth + 1) if d["pl"]["p"] and d["pl"]["p"][0] == "*" else d["pl"]["l"]
+    if d.get("k") == "use" and d["op"].get("k") in ("copy", "move") and not d["op"]["pl"]["p"]:
+        return _root_ref(b, d["op"]["pl"]["l"], depth + 1)
+    return l
+
+
+def _sink_infeasible(b, an, sink_blk):
+    cfg = b.cfg
+    for i, t in b.calls():
+        if (callee_path(t) or "") != DEQUE + "is_empty" or not t["args"]:
+            continue
+        a, _ = an.op_local(t["args"][0])
+        if a is None or an.ref_target(a) is not None:
+            continue
+        root = _root_ref(b, a)
+        vals = track_value(b, t["dest"]["l"])
+        bools, _ = guard_switches(b, vals)
+        for sb, t_succ, f_succ in bools:
+            if t_succ == f_succ or not cfg.dominates(t_succ, sink_blk):
+                continue
+            shr = []
+            for j, tt in b.calls():
+                cp = callee_path(tt) or ""
+                if cp.startswith(DEQUE) and cp[len(DEQUE):] in SHRINK + ("clear",) and tt["args"]:
+                    a2, _ = an.op_local(tt["args"][0])
+                    if a2 is not None and an.ref_target(a2) is None and _root_ref(b, a2) == root and i in cfg.reachable_from(j):
+                        shr.append((cp[len(DEQUE):], j))
+            if shr and all(m == "pop_back" and _guarded_not_at_syll_start(b, j) and _in_len_gt_loop(b, j) for m, j in shr):
+                return True
+    return False
+
+
+def _root_is_param_word(b, l, depth=0):
+    """does the reference chain of local l start at a `&Word` parameter (the input word)?"""
+    if depth > 10:
+        return False
+    if 1 <= l <= b.mir["arg_count"]:
+        return b.local_ty(l) == "&asca::word::Word"
+    if not b.local_ty(l).startswith("&"):
+        return False          # a by-value local (e.g. the working copy `res_word`)
+    d = _single_def(b, l)
+    if d is None:
+        return False
+    if d.get("k") == "ref":
+        return _root_is_param_word(b, d["pl"]["l"], depth + 1)
+    if d.get("k") == "use" and d["op"].get("k") in ("copy", "move"):
+        return _root_is_param_word(b, d["op"]["pl"]["l"], depth + 1)
+    if d.get("k") == "call" and d["t"]["args"] and d["t"]["args"][0].get("k") in ("copy", "move"):
+        return _root_is_param_word(b, d["t"]["args"][0]["pl"]["l"], depth + 1)
+    return False
+
+
+def _cmp_switches(b):
+    """[(switch block, true_succ, false_succ, op, a_local, b_operand)] for switches on a comparison result"""
+    out = []
+    for i, blk in enumerate(b.blocks):
+        t = blk["t"]
+        if t["k"] != "switch" or t["op"].get("k") not in ("copy", "move") or t["op"]["pl"]["p"]:
+            continue
+        d = _single_def(b, t["op"]["pl"]["l"])
+        if d is None or d.get("k") != "binop" or d["op"] not in ("Gt", "Ge", "Lt", "Le"):
+            continue
+        zero = dict((v, tg) for v, tg in t["vals"]).get(0)
+        if zero is None:
+            continue
+        out.append((i, t["otherwise"], zero, d["op"], d["a"], d["b"]))
+    return out
+
+
+def _guarded_by_runlength(b, blk):
+    cfg = b.cfg
+    for sb, t_succ, f_succ, op, a, c in _cmp_switches(b):
+        if op != "Gt" or c.get("k") != "const" or not isinstance(c.get("int"), int) or c["int"] < 1:
+            continue
+        if a.get("k") not in ("copy", "move"):
+            continue
+        if not (cfg.dominates(sb, blk) and only_reachable_via(cfg, sb, f_succ, blk)):
+            continue
+        # the compared local is (a copy of) a run length obtained from get_seg_length_at
+        l = a["pl"]["l"]
+        srcs = _all_defs(b, l)
+        if any(x == "get_seg_length_at" for x in srcs):
+            return True
+    return False
+
+
+def _all_defs(b, l, depth=0, seen=None):
+    seen = seen or set()
+    if l in seen or depth > 6:
+        return set()
+    seen.add(l)
+    out = set()
+    for blk in b.blocks:
+        for s in blk["s"]:
+            if s["k"] == "assign" and s["lhs"]["l"] == l and not s["lhs"]["p"]:
+                rv = s["rv"]
+                if rv["k"] == "use" and rv["op"].get("k") in ("copy", "move"):
+                    out |= _all_defs(b, rv["op"]["pl"]["l"], depth + 1, seen)
+                elif rv["k"] == "binop":
+                    for o in (rv["a"], rv["b"]):
+                        if o.get("k") in ("copy", "move"):
+                            out |= _all_defs(b, o["pl"]["l"], depth + 1, seen)
+        t = blk["t"]
+        if t["k"] == "call" and t["dest"]["l"] == l and not t["dest"]["p"]:
+            out.add((callee_path(t) or "").rsplit("::", 1)[-1])
+    return out
+
+
+def _guarded_not_at_syll_start(b, blk):
+    cfg = b.cfg
+    for i, t in b.calls():
+        if (callee_path(t) or "").endswith("SegPos::at_syll_start") and not t["dest"]["p"]:
+            vals = track_value(b, t["dest"]["l"])
+            bools, _ = guard_switches(b, vals)
+            for sb, t_succ, f_succ in bools:
+                if cfg.dominates(sb, blk) and only_reachable_via(cfg, sb, t_succ, blk):
+                    return True
+    return False
+
+
+def _in_len_gt_loop(b, blk):
+    """blk is inside a loop whose condition is `<deque>.len() > x`"""
+    cfg = b.cfg
+    for sb, t_succ, f_succ, op, a, c in _cmp_switches(b):
+        if op != "Gt" or a.get("k") not in ("copy", "move"):
+            continue
+        if "len" not in _all_defs(b, a["pl"]["l"]):
+            continue
+        for h, body in cfg.loops_containing(blk):
+            if sb in body and cfg.dominates(sb, blk) and only_reachable_via(cfg, sb, f_succ, blk):
+                return True
+    return False
+
+
+# ====================================================================== FLW-6
+
+
+def _root_local(b, l, depth=0):
+    """follow refs / derefs / as_str-like calls back to the owning local"""
+    if depth > 10:
+        return l
+    d = _single_def(b, l)
+    if d is None:
+        return l
+    if d.get("k") == "ref":
+        return _root_local(b, d["pl"]["l"], depth + 1)
+    if d.get("k") == "use" and d["op"].get("k") in ("copy", "move"):
+        return _root_local(b, d["op"]["pl"]["l"], depth + 1)
+    if d.get("k") == "call":
+        cp = callee_path(d["t"]) or ""
+        if cp.endswith(("Deref>::deref", "String::as_str", "AsRef<str>>::as_ref", "<impl str>::chars")) and d["t"]["args"] and d["t"]["args"][0].get("k") in ("copy", "move"):
+            return _root_local(b, d["t"]["args"][0]["pl"]["l"], depth + 1)
+    return l
+
+
+def flw6(ctx):
+    r = RuleResult("FLW-6", "tone values are capped at four non-zero digits where they originate; other tone writes copy a tone or go through concat_tone", floor=16)
+    lib = ctx.lib
+    import json as _json
+    # ---- (a) every str::parse::<u16> is guarded by the repository's cap idiom
+    n_parse = 0
+    for b in lib.bodies:
+        if b.in_test_mod():
+            continue
+        cfg = None
+        for bi, t in b.calls():
+            inst = t["callee"].get("inst") or ""
+            if not inst.endswith("parse::<u16>"):
+                continue
+            n_parse += 1
+            cfg = b.cfg
+            recv = t["args"][0]["pl"]["l"] if t["args"] and t["args"][0].get("k") in ("copy", "move") else None
+            root = _root_local(b, recv) if recv is not None else None
+            ok = False
+            why = "no `chars().count() > 4` test guards it"
+            for sb, t_succ, f_succ, op, a, c in _cmp_switches(b):
+                if op != "Gt" or c.get("k") != "const" or c.get("int") != 4 or a.get("k") not in ("copy", "move"):
+                    continue
+                d = _single_def(b, a["pl"]["l"])
+                if d is None or d.get("k") != "call" or not (callee_path(d["t"]) or "").endswith("Iterator>::count"):
+                    continue
+                cnt_recv = d["t"]["args"][0]["pl"]["l"] if d["t"]["args"][0].get("k") in ("copy", "move") else None
+                cnt_root = _root_local(b, cnt_recv) if cnt_recv is not None else None
+                if not (cfg.dominates(sb, bi) and only_reachable_via(cfg, sb, t_succ, bi)):
+                    continue
+                if cnt_root != root:
+                    why = "the counted string is not the parsed string"
+                    continue
+                # zero-stripped: the string comes from replace('0', "")
+                dr = _single_def(b, root)
+                zero_strip = False
+                if dr is not None and dr.get("k") == "call" and (callee_path(dr["t"]) or "").endswith("<impl str>::replace"):
+                    aa = dr["t"]["args"]
+                    zero_strip = len(aa) == 3 and (const_of(b, aa[1]) or {}).get("char") == "0" and (const_of(b, aa[2]) or {}).get("str") == ""
+                else:
+                    # `x = x.replace('0', "")` re-assignment: any replace('0',"") whose dest is root
+                    moved_into_root = {st_["rv"]["op"]["pl"]["l"] for blk_ in b.blocks for st_ in blk_["s"]
+                                       if st_["k"] == "assign" and st_["lhs"]["l"] == root and not st_["lhs"]["p"] and st_["rv"]["k"] == "use"
+                                       and st_["rv"]["op"].get("k") in ("copy", "move") and not st_["rv"]["op"]["pl"]["p"]}
+                    for _, tt in b.calls():
+                        if (callee_path(tt) or "").endswith("<impl str>::replace") and not tt["dest"]["p"] and (
+                                tt["dest"]["l"] == root or tt["dest"]["l"] in moved_into_root):
+                            aa = tt["args"]
+                            if len(aa) == 3 and (const_of(b, aa[1]) or {}).get("char") == "0" and (const_of(b, aa[2]) or {}).get("str") == "":
+                                zero_strip = True
+                if zero_strip:
+                    ok = True
+                else:
+                    why = "zeros are not stripped before counting the digits"
+            fn = b.path.rsplit("::", 2)
+            r.inst("%s: tone digits parsed only after `replace('0',\"\")` and `chars().count() > 4` rejected" % "::".join(fn[-2:]), short_loc(t["loc"]),
+                   "ok" if ok else "report")
+            if not ok:
+                r.report("FLW-6|%s|parse-u16" % b.path, short_loc(t["loc"]), b.path,
+                         "a tone literal is parsed to u16 here without the four-digit cap (%s): tones with more than four non-zero digits enter the word" % why)
+    if n_parse < 2:
+        raise AnchorMissing("fewer than 2 `parse::<u16>` tone origins found (%d)" % n_parse)
+    # ---- (b) concat_tone: the concatenated value only leaves through the `len > 4` meld test
+    ct = ctx.fn(lib, "asca::subrule::SubRule::concat_tone")
+    cfg = ct.cfg
+    pows = [i for i, t in ct.calls() if (callee_path(t) or "").endswith("::pow")]
+    caps = [sb for sb, t_succ, f_succ, op, a, c in _cmp_switches(ct) if op == "Gt" and c.get("k") == "const" and c.get("int") == 4
+            and a.get("k") in ("copy", "move") and "len" in _all_defs(ct, a["pl"]["l"])]
+    dedups = [i for i, t in ct.calls() if (callee_path(t) or "") == "alloc::vec::Vec::dedup"]
+    ok = bool(pows) and bool(caps) and all(cfg.must_pass_through(p, caps, cfg.exits) for p in pows) and bool(dedups) and all(
+        cfg.must_pass_through(p, dedups, cfg.exits) for p in pows)
+    r.inst("concat_tone: every path from the concatenation to a return passes `dedup` and the `len > 4` meld test", fn_loc(ct), "ok" if ok else "report")
+    if not ok:
+        r.report("FLW-6|concat_tone|cap", fn_loc(ct), ct.path,
+                 "concat_tone can return the raw concatenation without the dedup / four-digit meld step: merged syllables can carry a five-digit tone")
+    # ---- (c) every write of Syllable.tone has a capped origin
+    for b in lib.bodies:
+        if b.in_test_mod():
+            continue
+        per = 0
+        for f, bi, loc, deref, s in field_writes(b, SYL, ("tone",)):
+            src = _tone_source(b, s["rv"])
+            ok = src is not None
+            r.inst("%s: tone written from %s" % (b.path.rsplit("::", 1)[-1], src or "?"), loc, "ok" if ok else "report")
+            if not ok:
+                r.report("FLW-6|%s|tone-write|#%d" % (b.path, per), loc, b.path,
+                         "Syllable.tone is assigned a value that is neither an existing tone, a capped literal, 0 nor concat_tone(..)")
+            per += 1
+    # Syllable literals
+    return r
+
+
+def _tone_source(b, rv, depth=0):
+    if depth > 6:
+        return None
+    if rv["k"] == "use":
+        op = rv["op"]
+        if op.get("k") == "const":
+            return "constant %s" % op.get("int") if op.get("int") == 0 else None
+        pl = op["pl"]
+        for p in pl["p"]:
+            if isinstance(p, dict) and p.get("n") == "tone" and p.get("of") in (SYL, SUPRA):
+                return "an existing tone (%s.tone)" % p["of"].rsplit("::", 1)[-1]
+        if pl["p"] == ["*"]:
+            # *t where t: &u16 bound from `Some(t) = &mods.tone`
+            ty = b.local_ty(pl["l"])
+            if ty in ("&u16", "&mut u16"):
+                d = _single_def(b, pl["l"])
+                if d is not None and d.get("k") == "ref":
+                    for p in resolve_place_fields(b, d["pl"]):
+                        if p[1] == "tone":
+                            return "the rule's tone modifier (capped where parsed)"
+                return "a tone reference"
+        d = _single_def(b, pl["l"]) if not pl["p"] else None
+        if d is None:
+            return None
+        if d.get("k") == "call":
+            cp = callee_path(d["t"]) or ""
+            if cp.endswith("SubRule::concat_tone"):
+                return "concat_tone(..)"
+            if cp.endswith("Result::unwrap_or") or cp.endswith("Option::unwrap_or"):
+                a0 = d["t"]["args"][0]
+                if a0.get("k") in ("copy", "move"):
+                    d2 = _single_def(b, a0["pl"]["l"])
+                    if d2 is not None and d2.get("k") == "call" and (d2["t"]["callee"].get("inst") or "").endswith("parse::<u16>"):
+                        return "a parsed literal (cap checked at the parse site)"
+            return None
+        return _tone_source(b, d, depth + 1)
+    return None
+
+
+# ====================================================================== FLW-7
+
+
+def flw7(ctx):
+    r = RuleResult("FLW-7", "an empty place is absent: raw `*place = ..` writes assign None only; segment node bytes are written only by set_node; data file places are normalised", floor=14)
+    lib = ctx.lib
+    n = 0
+    for b in lib.bodies:
+        if b.in_test_mod():
+            continue
+        for bi, t in b.calls():
+            if (callee_path(t) or "") != "<asca::place::Place as core::ops::deref::DerefMut>::deref_mut":
+                continue
+            n += 1
+            rl = t["dest"]["l"]
+            # every use of the returned &mut Option<u16>
+            stores, other = [], []
+            for bj, blk in enumerate(b.blocks):
+                for s in blk["s"]:
+                    if s["k"] != "assign":
+                        continue
+                    if s["lhs"]["l"] == rl and s["lhs"]["p"] and s["lhs"]["p"][0] == "*":
+                        stores.append(s)
+                    else:
+                        if _mentions_local(s["rv"], rl):
+                            other.append(short_loc(s["loc"]))
+                tt = blk["t"]
+                if tt["k"] == "call" and any(a.get("k") in ("copy", "move") and a["pl"]["l"] == rl for a in tt["args"]):
+                    other.append(short_loc(tt["loc"]))
+            none_only = bool(stores) and all(_is_none_local(b, s["rv"]) for s in stores)
+            ok = none_only and not other
+            r.inst("%s: raw place write through DerefMut assigns None only" % b.path.rsplit("::", 1)[-1], short_loc(t["loc"]), "ok" if ok else "report")
+            if not ok:
+                r.report("FLW-7|%s|raw-place" % b.path, short_loc(t["loc"]), b.path,
+                         "the place word is written directly (not through set_labial/.. and not `= None`): Some(0) or stray bits can be stored")
+    if n < 2:
+        raise AnchorMissing("expected at least two raw `*place = None` sites, found %d" % n)
+    # Segment node bytes written only in set_node
+    for b in lib.bodies:
+        if b.in_test_mod():
+            continue
+        ws = field_writes(b, "asca::seg::Segment", ("root", "manner", "laryngeal", "place"))
+        for f, bi, loc, deref, s in ws:
+            ok = b.path == "asca::seg::Segment::set_node"
+            r.inst("%s writes Segment.%s" % (b.path.rsplit("::", 2)[-2] + "::" + b.path.rsplit("::", 1)[-1], f), loc, "ok" if ok else "report")
+            if not ok:
+                r.report("FLW-7|%s|segment-%s" % (b.path, f), loc, b.path, "Segment.%s is written outside Segment::set_node" % f)
+    # Place's inner word is written only inside place.rs setters
+    for b in lib.bodies:
+        if b.in_test_mod() or b.exp:
+            continue
+        ws = field_writes(b, "asca::place::Place", ("0",))
+        for f, bi, loc, deref, s in ws:
+            ok = b.path.startswith("asca::place::Place::set_")
+            r.inst("%s writes Place.0" % b.path.rsplit("::", 1)[-1], loc, "ok" if ok else "report", nontrivial=not ok)
+            if not ok:
+                r.report("FLW-7|%s|place-inner" % b.path, loc, b.path, "Place's packed word is written outside the four setters")
+    # cardinals.json: no Some(0), no payload bits under an absent sub-node
+    import json as _json
+    from engine_tab import place_consts, place_payload_fields
+    pc = place_consts(ctx)
+    lowf = place_payload_fields(ctx, pc)
+    cj = _json.loads(ctx.read("src/cardinals.json"))
+    bad = []
+    for g, sgm in cj.items():
+        p = sgm.get("place")
+        if p is None:
+            continue
+        if p == 0:
+            bad.append((g, "Some(0)"))
+            continue
+        for K in ("LAB", "COR", "DOR", "PHR"):
+            lowv = lowf[K]
+            if not (p & pc[K + "_BIT"]) and (p & lowv):
+                bad.append((g, "%s payload without presence bit" % K))
+    r.inst("cardinals.json: %d segments have normalised places (no Some(0), no features under an absent sub-node)" % len(cj), "src/cardinals.json",
+           "ok" if not bad else "report")
+    if bad:
+        r.report("FLW-7|cardinals.json|place", "src/cardinals.json", "CARDINALS_MAP", "ill-formed place values: %s" % bad[:8])
+    return r
+
+
+def _mentions_local(rv, l):
+    import json as _json
+    return ('"l": %d,' % l) in _json.dumps(rv)
+
+
+def const_of(b, op, depth=0):
+    """constant operand value, looking through `&*` of single-definition locals"""
+    if op.get("k") == "const":
+        return op
+    if op.get("k") in ("copy", "move") and depth < 5:
+        d = _single_def(b, op["pl"]["l"])
+        if d is None:
+            return None
+        if d.get("k") == "ref":
+            return const_of(b, {"k": "copy", "pl": {"l": d["pl"]["l"], "p": []}}, depth + 1)
+        if d.get("k") == "use":
+            return const_of(b, d["op"], depth + 1)
+    return None
+
+
+def _is_none_local(b, rv, depth=0):
+    if _is_none(rv):
+        return True
+    if rv["k"] == "use" and rv["op"].get("k") in ("copy", "move") and not rv["op"]["pl"]["p"] and depth < 4:
+        d = _single_def(b, rv["op"]["pl"]["l"])
+        if d is not None and d.get("k") in ("agg", "use"):
+            return _is_none_local(b, d, depth + 1)
+    return False
+
+
+def _is_none(rv):
+    if rv["k"] == "agg" and rv.get("adt") == "core::option::Option" and rv.get("variant") == "None":
+        return True
+    if rv["k"] == "use" and rv["op"].get("k") == "const":
+        pr = rv["op"].get("pretty") or ""
+        return "None" in pr or (rv["op"].get("ty", "").startswith("core::option::Option<") and rv["op"].get("variant") == "None")
+    return False
